@@ -73,24 +73,46 @@ package object
 // C01 / C03: list.each and list.filter accept a function or a builtin (their own type switch) and must be able to
 // call what they accept: no type assertion in their bodies can fail and no nil interface is called (KF-40 fixed:
 // both asserted the callable to *Function after letting *Builtin through).
-// Assumed of the function values they call (CallFunc from the context, a builtin's Go function): a call that
-// reports no error returns a non-nil object.
+// Assumed of the function values they call (CallFunc from the context): a call that reports no error returns a
+// non-nil object; callBuiltin returns a non-nil object (assumed of builtins).
 //@ func (*List).Filter
 //@ props C01 C03
 //@ safety typeassert nil
 //@ requires ls != nil && ctx != nil && fn != nil && ref(fn) != nil
 //@ dynensures CallFunc: result1 == nil ==> result0 != nil
-//@ dynensures BuiltinFunction: result0 != nil
+//@ dyncall[C03.builtin.direct] BuiltinFunction: false
 
 //@ func (*List).Each
 //@ props C01 C03
 //@ safety typeassert nil
 //@ requires ls != nil && ctx != nil && fn != nil && ref(fn) != nil
 //@ dynensures CallFunc: result1 == nil ==> result0 != nil
-//@ dynensures BuiltinFunction: result0 != nil
+//@ dyncall[C03.builtin.direct] BuiltinFunction: false
 
 // NewModule builds a module object around compiled code: it reads the code's globals and allocates (assumed frame).
 //@ func NewModule
 //@ trusted
 //@ modifies nothing
 //@ ensures result != nil && fresh(result)
+
+// C03 (native stack exhaustion by builtins calling builtins): list.map / each / filter call a builtin argument
+// without a VM frame. Every such call goes through callBuiltin, which carries the nesting depth in the context and
+// refuses to go deeper than MaxBuiltinCallDepth (KF-51 fixed: l := []; f := l.map; l.append(f); f(f) ended the
+// process). Obligations: in callBuiltin the function value is only called with a context whose depth entry is the
+// caller's plus one and at most the limit; Map / Each / Filter contain no direct call of a builtin's function value.
+//@ func callBuiltin
+//@ props C03
+//@ assume[args.wf] ctx != nil && b != nil
+//@ dynensures BuiltinFunction: result0 != nil
+//@ ensures result != nil
+//@ dyncall[C03.builtin.depth] BuiltinFunction: typeof(uf("ctx.val", any, arg0, any(builtinDepthKey))) == int && uf("ctx.val", any, arg0, any(builtinDepthKey)).(int) <= MaxBuiltinCallDepth && (typeof(uf("ctx.val", any, ctx, any(builtinDepthKey))) == int ==> uf("ctx.val", any, arg0, any(builtinDepthKey)).(int) == uf("ctx.val", any, ctx, any(builtinDepthKey)).(int) + 1)
+//@ ensures[C03.builtin.limit] typeof(uf("ctx.val", any, ctx, any(builtinDepthKey))) == int && uf("ctx.val", any, ctx, any(builtinDepthKey)).(int) >= MaxBuiltinCallDepth ==> typeof(result) == *Error
+
+// C16 / C01 (list.map): the index handed to a callback is never overwritten afterwards - Map stores into no
+// existing Int (KF-52 fixed: one shared index object was updated for every call, so an index a callback kept or
+// returned changed under it). Objects freshly built by NewInt are not stores into existing objects.
+//@ func (*List).Map
+//@ props C03 C16
+//@ trusted callpre
+//@ dyncall[C03.builtin.direct] BuiltinFunction: false
+//@ storeguard[C16.map.index.immutable] Int.value: false
